@@ -22,8 +22,12 @@ appended to and never read by any function of the model (theorem
 `Props/C02: ghost_free` states this as an erasure property for the queues).
 
 Not modelled: `close()` (every `update` of a closed task returns False),
-`max_size > 0` (queue-full exceptions), `gen_event` (None), the asynchronous
-handlers, actions / datagen / validators that raise.
+`max_size > 0` (queue-full exceptions), `gen_event` (None), actions / datagen /
+validators that raise.  The asynchronous handlers (`BoboActionHandlerMultithreading`
+/ `BoboActionHandlerMultiprocessing`) are modelled on top of this file in
+Model/EngineAsync.lean (this state + jobs in flight + pool script), tied to the code
+by its own driver (Drivers/EngineAsync.lean, `bobodrv engineA`) and the asynchronous
+family of harness/props/c02.py.
 -/
 namespace Bobo.Engine
 
